@@ -52,7 +52,7 @@ CHECKS.update({
 
 CHECKS.update({
     "C06": ("exploration", "runtime monitor: convergence oracle (real store == reference of the final canonical chain) over the real detector + syncer on a forking chain simulator; rewind-depth / no-spurious-rewind monitors on a recording store",
-            "The real reorg detector (1 ms) and the real L1 info tree syncer (optionally with a second syncer sharing the detector) run over a chain simulator whose schedule forks above the finalized block at random RPC calls, stops / restarts the node at chosen RPC call indices (crash-point sweep) and forks while it is down; once the chain stops changing the real store must equal the reference of the final canonical chain and the last processed block must be on it. Behind a recording store, a fork that replaces processed blocks must produce a rewind that leaves nothing at or above the fork point recorded, and forks strictly above everything ever served to the node (or no fork) must produce no rewind. Hand-shake windows that RPC-aligned crash points cannot hit are driven through a per-incarnation view of the recording store: death inside processor.Reorg, death right after ProcessBlock returned, a store that takes 6 s while a fork is reported, a detector whose DELETE FROM tracked_block is slow while the driver re-tracks the new fork, new-fork blocks that cannot be applied while rows of the dropped fork remain; each followed by restart / further forks and the convergence oracle. A labelled campaign starts the detector concurrently with the syncer's constructor (cmd/run.go's order) on detector databases with and without thousands of tracked rows. Four genuine defects (subscribe before detector start; Start/Subscribe lock-order deadlock; re-tracked blocks wiped after a reorg acknowledgement; driver retrying an unprocessable block without handling the pending reorg) found and repaired. A convergence failure carries a dump of the goroutines blocked in aggkit code and, with VERIF_LOG_ERRORS=1, the tail of the node's error log.",
+            "The real reorg detector (1 ms) and the real L1 info tree syncer (optionally with a second syncer sharing the detector) run over a chain simulator whose schedule forks above the finalized block at random RPC calls, stops / restarts the node at chosen RPC call indices (crash-point sweep) and forks while it is down; once the chain stops changing the real store must equal the reference of the final canonical chain and the last processed block must be on it. Behind a recording store, a fork that replaces processed blocks must produce a rewind that leaves nothing at or above the fork point recorded, and forks strictly above everything ever served to the node (or no fork) must produce no rewind. Hand-shake windows that RPC-aligned crash points cannot hit are driven through a per-incarnation view of the recording store: death inside processor.Reorg, death right after ProcessBlock returned, a store that takes 6 s while a fork is reported, a detector whose DELETE FROM tracked_block is slow while the driver re-tracks the new fork, new-fork blocks that cannot be applied while rows of the dropped fork remain; each followed by restart / further forks and the convergence oracle. A labelled campaign starts the detector concurrently with the syncer's constructor (cmd/run.go's order) on detector databases with and without thousands of tracked rows. Five genuine defects (subscribe before detector start; Start/Subscribe lock-order deadlock; re-tracked blocks wiped after a reorg acknowledgement, in two variants; driver retrying an unprocessable block without handling the pending reorg) found and repaired. A convergence failure carries a dump of the goroutines blocked in aggkit code and, with VERIF_LOG_ERRORS=1, the tail of the node's error log.",
             "Convergence is bounded progress (re-evaluated for up to 40 s after the chain stopped changing); finalized blocks are never reorged; the window between ReorgProcessed and removeTrackedBlockRange is not driven.", "DESIGN.md §4 C06"),
     "C16": ("exploration", "runtime monitor: per-X query oracle against the injected-and-not-removed set of the canonical L2 chain, real lastgersync (PP and FEP) over the chain simulator",
             "Real lastgersync.New with the real reorg detector in PP and FEP mode: GER insertions / removals / re-insertions (<= 1 per block), the tip advancing by up to 25 blocks between polls, restarts at random RPC call indices, forks (incl. a final fork that re-injects the last root), a lagging L1 info tree syncer and transient RPC errors; at quiescence GetFirstGERAfterL1InfoTreeIndex(X) is judged for every X: a returned root must be injected, not removed, with index >= X, and not-found is only allowed when no such root exists. Extra campaigns: forks that replace already served event-free blocks by blocks with events (PP), the chain growing between the FEP downloader's view calls, a final fork that re-injects the last root. Three genuine defects (PP downloader skipped blocks; PP downloader missed reorgs of event-free blocks; FEP downloader recorded state read at 'latest' under an older block) found and repaired; the GER-removal delete that a reorg does not undo is a known finding.",
